@@ -137,7 +137,7 @@ def make_case(g, rng, bad=False):
     second = rng.choice(["other", "o%", 5, "~/o"]) if rng.random() < 0.4 else None
     case = dict(
         path=rng.choice([None, "/abs/p", "~/p", "rel", "rel/sub", "/abs/é", VIA + "/bin"]),
-        exe=rng.choice(["exe", "./run.sh", "vm{1}", "~/bin/x"]),
+        exe=rng.choice(["exe", "./run.sh", "vm{1}", "~/bin/x", "/abs/bin/vm"]),
         args=rng.choice([None, "", "-X %(cores)s", "--flag=%(executor)s 100%%"]),
         cmd_pieces=g.pieces(rng.randint(1, 8), bad=bad),
         extra_pieces=(g.pieces(rng.randint(1, 3)) if rng.random() < 0.5 else None),
@@ -152,6 +152,10 @@ def make_case(g, rng, bad=False):
     )
     # every fourth case: the executor defines an env as well; the suite's (possibly empty) map replaces it as a whole
     case["lower_env"] = rng.choice([None, None, None, {"LOWER": "x", "A": "0"}])
+    # extra_args that YAML reads as a number or a boolean, zero and false among them: arguments like any other
+    if rng.random() < 0.12:
+        tv = rng.choice([0, 0.0, False, 7, -3])
+        case["extra_pieces"], case["extra_typed"] = [("lit", str(tv))], tv
     case["raw_values"] = dict(values)
     case["values"] = {k: (v if k in ("iterations", "warmup") else str(v)) for k, v in values.items()}
     return case
@@ -181,7 +185,7 @@ def raw_of(case):
     v = case["values"]
     details = {"command": v["benchmark"]}
     if case["extra_pieces"] is not None:
-        details["extra_args"] = g.render(case["extra_pieces"])
+        details["extra_args"] = g.render(case["extra_pieces"]) if case.get("extra_typed") is None else case["extra_typed"]
     suite = {"gauge_adapter": "RebenchLog", "command": g.render(case["cmd_pieces"]),
              "iterations": v["iterations"], "warmup": v["warmup"], "benchmarks": [{"TheBench": details}]}
     if case["loc_pieces"] is not None:
@@ -338,6 +342,7 @@ def run(chk):
 
     sessions(chk)
     cli_sessions(chk)
+    plan_many_runs(chk)
     shutil.rmtree(LINKROOT, ignore_errors=True)
     chk.coverage["rule"] = ("templates of 1-8 pieces (literal text over a shell-safe alphabet incl. { } ~ = : and non-ASCII, %%, "
                             "every placeholder with s/d conversions) x values incl. %, %%, %(x)s, ~ x paths (absent/absolute/"
@@ -641,6 +646,36 @@ def cli_sessions(chk):
             chk.case(("cli", i))
         chk.count("cli_sessions", n)
         chk.count("cli_child_processes_checked", nchild)
+    finally:
+        shutil.rmtree(W, ignore_errors=True)
+
+
+def plan_many_runs(chk):
+    """-p for many runs that need not be executed exclusively, on a machine with several cores (where a session would use the
+    parallel scheduler): every run is listed once, as its directory followed by its command line"""
+    W = os.path.realpath(session.scratch_dir("rebench-verif.c03p."))
+    try:
+        nb, ni = (10, 30) if chk.tier == "quick" else (12, 60)
+        raw = {"default_data_file": "p.data", "executors": {"E": {"executable": "/bin/echo"}},
+               "benchmark_suites": {"S": {"gauge_adapter": "RebenchLog", "command": "%(benchmark)s %(input)s", "location": "/tmp/loc-%(input)s",
+                                          "input_sizes": list(range(ni)), "benchmarks": ["B%d" % i for i in range(nb)]}},
+               "experiments": {"X": {"executions": [{"E": {"suites": ["S"]}}]}}, "runs": {"invocations": 1, "execute_exclusively": False}}
+        cli.write_yaml(os.path.join(W, "p.conf"), raw)
+        for sched in ("batch", "random", "round-robin", "batch"):
+            # unbuffered output: every print is two writes, each of which lets another thread run - threads that print at the
+            # same time are almost certain to show
+            rc, out, err = cli.rebench(["-D", "-p", "-s", sched, "p.conf"], cwd=W, env=cli.base_env(W, {"PYTHONUNBUFFERED": "1"}))
+            case = dict(config=dict(raw, benchmark_suites="%d benchmarks x %d input sizes, location /tmp/loc-%%(input)s" % (nb, ni)), argv=["-D", "-p", "-s", sched])
+            lines = [l for l in out.split("\n") if l]
+            want = sorted("cd /tmp/loc-%d|/bin/echo B%d %d" % (i, b, i) for b in range(nb) for i in range(ni))
+            got = sorted("%s|%s" % (lines[k], lines[k + 1]) for k in range(0, len(lines) - 1, 2))
+            if rc != 0 or cli.has_traceback(out, err) or len(lines) != 2 * nb * ni or got != want:
+                bad = [l for l in lines if not (l.startswith("cd /tmp/loc-") and l[12:].isdigit()) and not (l.startswith("/bin/echo B") and l.count(" ") == 2)]
+                chk.violation("C03 the plan lists every unfinished run once: its directory, then its command line (also for runs that a "
+                              "session would hand to the parallel scheduler)", case, "%d pairs of lines" % (nb * ni),
+                              dict(rc=rc, lines=len(lines), malformed=bad[:5], first_wrong_pair=next((g for g in got if g not in set(want)), None)))
+            chk.case(("plan-many", sched))
+        chk.count("plan_sessions_with_non_exclusive_runs", 4)
     finally:
         shutil.rmtree(W, ignore_errors=True)
 
